@@ -11,9 +11,9 @@ Proof.
   rewrite seqN_snoc. f_equal. f_equal. lia.
 Qed.
 
-Lemma presO c s a s' : InvS s -> InvO s -> step c s a = Some s' -> InvO s'.
+Lemma presO c s a s' : c_descmust c = true -> InvS s -> InvO s -> step c s a = Some s' -> InvO s'.
 Proof.
-  intros HS HO H. unfold InvO in *. open_state s. destruct a; cbn in H; unfold flow in H; cbn in H.
+  intros Hdm HS HO H. unfold InvO in *. open_state s. destruct a; cbn in H; unfold flow in H; cbn in H.
   all: try (guards H; inversion H; subst; clear H; cbn in *; try (destruct tp; cbn); try (destruct w; cbn); exact HO).
   - (* Append *)
     inversion H; subst; clear H. destruct HS; cbn in *.
@@ -21,6 +21,14 @@ Proof.
     intros x Hx. apply In_seqN in Hx. lia.
   - (* RInitOk *)
     guards H; inversion H; subst; clear H. cbn. rewrite N.sub_diag. reflexivity.
+  - (* PLookup: the descriptor is absent - an error, the event was not invoked *)
+    guards H; inversion H; subst; clear H; bools; subst; try congruence; cbn in *; try exact HO. destruct HS; cbn in *.
+    destruct (i_pin _ eq_refl) as (_ & Hgd & Hlt & Ht). subst. rewrite ?app_nil_r.
+    match type of HO with _ ++ [?n] = filter _ (seqN (?g + 1) _) =>
+      replace (N.to_nat (n - g)) with (S (N.to_nat (n - 1 - g))) in HO by lia;
+      rewrite seqN_snoc, filter_snoc in HO;
+      replace (g + 1 + N.of_nat (N.to_nat (n - 1 - g))) with n in HO by lia end.
+    rewrite Ht in HO. apply app_inj_tail in HO. exact (proj1 HO).
   - (* PInvoke *)
     guards H; inversion H; subst; clear H; bools; subst; cbn in *; try (destruct tp; cbn);
       rewrite app_nil_r; exact HO.
